@@ -78,7 +78,7 @@ class SlideGen:
     def tok(self):
         # alphabetical order differs from document order: random leading letter, unique id behind it
         self.next_id[0] += 1
-        return self.rng.choice("ZYXWVUTSRQPONMLKJIHGFEDCBAzyxkcba") + "q" + str(self.next_id[0])
+        return self.rng.choice("ZYXWVUTSRQPONMLKJIHGFEDCBAzyxkcba\u00c9\u00df\u00fc\u00e0\u4e2d") + "q" + str(self.next_id[0])
 
     def item(self, i, mode, shared):
         rng = self.rng
@@ -121,13 +121,14 @@ class SlideGen:
                 parts.append(a["xml"])
                 items.append(a)
                 i += 1
-        xml = (f'<?xml version="1.0" encoding="UTF-8" standalone="yes"?><p:sld {NS}><p:cSld><p:spTree><p:nvGrpSpPr>'
+        xml = (f'<p:sld {NS}><p:cSld><p:spTree><p:nvGrpSpPr>'
                '<p:cNvPr id="1" name=""/><p:cNvGrpSpPr/><p:nvPr/></p:nvGrpSpPr><p:grpSpPr/>' + "".join(parts) +
                "</p:spTree></p:cSld></p:sld>")
         return items, xml
 
 
-def package(slides_xml):
+def package(slides_xml, enc="ascii-refs"):
+    from props.c02 import encode_part
     ct = ('<?xml version="1.0" encoding="UTF-8"?><Types xmlns="http://schemas.openxmlformats.org/package/2006/content-types">'
           '<Default Extension="rels" ContentType="application/vnd.openxmlformats-package.relationships+xml"/>'
           '<Default Extension="xml" ContentType="application/xml"/>'
@@ -149,7 +150,8 @@ def package(slides_xml):
         z.writestr("ppt/presentation.xml", pres)
         z.writestr("ppt/_rels/presentation.xml.rels", prels)
         for i, x in enumerate(slides_xml):
-            z.writestr(f"ppt/slides/slide{i + 1}.xml", x)
+            # part-encoding dimension shared by all C02 package writers (non-ASCII as references first)
+            z.writestr(f"ppt/slides/slide{i + 1}.xml", encode_part(x.encode("ascii", "xmlcharrefreplace").decode("ascii"), enc))
     return b.getvalue()
 
 
@@ -170,14 +172,18 @@ def run_part(ctx):
         decks.append(slides)
     cases, info = [], []
     for slides in decks:
-        pkg = package([x for _, x in slides])
+        from props.c02 import pick_encoding
+        enc = pick_encoding(rng)
+        ctx.count("pptx-encoding:" + enc)
+        pkg = package([x for _, x in slides], enc)
         try:
             content = next(PX.read_pptx(io.BytesIO(pkg)))
             full = content.get_full_text()
             per_slide = [s.base_text for s in content.slides]
         except Exception as e:  # noqa
-            ctx.finding("pptx:raises", f"read_pptx raised {type(e).__name__}: {e} on a generated deck",
-                        {"format": "pptx", "slides": [x for _, x in slides]})
+            ctx.finding("pptx:raises" + ("" if enc in ("ascii-refs", "utf8-raw") else ":" + enc),
+                        f"read_pptx raised {type(e).__name__}: {e} on a generated deck (slides encoded as {enc})",
+                        {"format": "pptx", "slides": [x for _, x in slides], "encoding": enc})
             continue
         all_expected = []
         for (items, xml), text in zip(slides, per_slide):
@@ -202,7 +208,7 @@ def run_part(ctx):
                 info.append((xml, got))
             if got == want:
                 continue
-            rep = {"format": "pptx", "slide_xml": xml, "expected_tokens": want, "got_tokens": got,
+            rep = {"format": "pptx", "slide_xml": xml, "expected_tokens": want, "got_tokens": got, "encoding": enc,
                    "keys": [list(it["key"]) for it in items], "kinds": [it["kind"] for it in items]}
             if sorted(got) != sorted(want):
                 ctx.finding("pptx:token-multiplicity", "PPTX slide text: a token is missing, duplicated or invented", rep)
